@@ -133,7 +133,7 @@ func runC17(c *report.Ctx) {
 		}
 		cj, _ := json.MarshalIndent(cs, "", " ")
 		c.Violation(sig, fmt.Sprintf("the real code %s on this input (%s; unit %d ord %d sub %d)\n%s\nchild stderr:\n%s",
-			how, exit.Err, exit.Progress.Unit, exit.Progress.Ord, exit.Progress.Sub, cj, head(exit.Stderr, 14)), cs)
+			how, exit.Err, exit.Progress.Unit, exit.Progress.Ord, exit.Progress.Sub, cj, trigx.TrimStack(exit.Stderr)), cs)
 		c.Stats.Class("PROCESS DIED in the code under test | " + slug)
 		c.Stats.Evaluations++
 		spec.Skip = append(spec.Skip, exit.Progress)
@@ -150,13 +150,6 @@ func runC17(c *report.Ctx) {
 	}
 }
 
-func head(s string, n int) string {
-	l := strings.Split(s, "\n")
-	if len(l) > n {
-		l = l[:n]
-	}
-	return strings.Join(l, "\n")
-}
 
 func replayC17(c *report.Ctx, raw json.RawMessage) string {
 	var cs trigx.Case
